@@ -87,7 +87,9 @@ impl InMemoryRowGroup<'_> {
                     let (start, _len) = chunk_meta.byte_range();
                     let Some(offset_idx) = offset_index[idx].as_ref() else {
                         // No offset index for this column, fetch the entire column
+                        // (`fill_column_chunks` expects an entry for every fetched column)
                         ranges.push(start..start + _len);
+                        page_start_offsets.push(vec![start]);
                         return ranges;
                     };
 
@@ -162,6 +164,22 @@ impl InMemoryRowGroup<'_> {
                     let mut chunks = Vec::with_capacity(offsets.len());
                     for _ in 0..offsets.len() {
                         chunks.push(chunk_data.next().unwrap());
+                    }
+
+                    let has_offset_index = self
+                        .offset_index
+                        .and_then(|index| index.get(idx))
+                        .is_some_and(|index| index.is_some());
+                    if !has_offset_index {
+                        // Without an offset index the whole column chunk was fetched and
+                        // its pages are read sequentially, which needs a dense chunk
+                        if let Some(data) = chunks.pop() {
+                            *chunk = Some(Arc::new(ColumnChunkData::Dense {
+                                offset: metadata.column(idx).byte_range().0 as usize,
+                                data,
+                            }));
+                        }
+                        continue;
                     }
 
                     *chunk = Some(Arc::new(ColumnChunkData::Sparse {
